@@ -193,6 +193,8 @@ def compare_views(ctx, obj, m, attr, keys, label, extra):
                 want = m.items()
             if back != want:
                 problems.append(("serialization", back, want))
+            if list(obj.items()) != m.items():
+                problems.append(("serializing modified the mapping", list(obj.items()), m.items()))
         except Exception as e:
             problems.append(("serialization raised", repr(e), None))
     if problems:
